@@ -8,8 +8,8 @@ Import ListNotations.
 
 Definition par1 (c : tid) : option tid := match c with 1 => Some 0 | _ => None end.
 
-Lemma par1_flat : forall c, helper 1 c -> par1 c = Some 0.
-Proof. intros c Hc. assert (c = 1) as -> by (unfold helper in Hc; lia). reflexivity. Qed.
+Lemma par1_tree : tree_ok 1 par1.
+Proof. intros c Hc. assert (c = 1) as -> by lia. exists 0. split; [reflexivity|lia]. Qed.
 
 Definition ex_read_sched : list xlabel :=
   [XSetOpt; XL (LT 0 AWait); XL (LT 0 ARdQuit); XTake; XApply; XTake; XL (LT 0 ARdSearch);
